@@ -169,9 +169,14 @@ if __name__ == "__main__":
             )
 
     except Exception as ex:
+        try:
+            reason = str(ex)
+        except Exception:  # pylint: disable=broad-except
+            # an exception of the program that cannot describe itself: its class is the reason
+            reason = type(ex).__name__
         output = {
             "result": "Failure",
-            "reason": str(ex),
+            "reason": reason,
             "traceback": str(traceback.format_exc()),
         }
         print(json.dumps(output))
